@@ -182,6 +182,11 @@ def run_length(desc):
                                 f'len={n}')
             if v is not None:
                 return v
+            # the size alone (no checksum requested)
+            v = check_hash_file(data, [], hint, kind, schedule,
+                                f'len={n},size-only')
+            if v is not None:
+                return v
     # Manifest names, through hash_bytes for one algorithm at a time
     if n <= 300:
         for mn in MANIFEST_NAMES:
@@ -225,7 +230,8 @@ def schedule_case(draw):
                          MAX_SLURP, MAX_SLURP + 1, 2 ** 31]),
         st.integers(0, 2 * MAX_SLURP)))
     kind = draw(st.sampled_from(['buffered', 'bare', 'bytesio']))
-    algs = draw(st.lists(st.sampled_from(FIXED_ALGS), min_size=1, max_size=4,
+    # (an empty set asks for the size alone: size-only entries)
+    algs = draw(st.lists(st.sampled_from(FIXED_ALGS), min_size=0, max_size=4,
                          unique=True))
     salt = draw(st.integers(0, 1000))
     return {'len': n, 'schedule': schedule, 'hint': hint, 'kind': kind,
@@ -266,7 +272,7 @@ def file_case(draw):
     else:
         n = draw(st.sampled_from([1048575, 1048576, 1048577]))
     names = draw(st.lists(st.sampled_from(list(R.USABLE_HASHES)),
-                          min_size=1, max_size=5, unique=True))
+                          min_size=0, max_size=5, unique=True))
     return {'len': n, 'names': names, 'salt': draw(st.integers(0, 1000)),
             'coreutils': draw(st.integers(0, 9)) == 0}
 
